@@ -21,6 +21,9 @@ late, or revisits a node before any such leg, is rejected with `False` by the co
 raises as soon as the preliminary tests pass.  So the model is *stricter* than the code here (it raises on a
 superset of the inputs).  This point is excluded from the correspondence check (the harness always sets the
 vehicle data before offering routes) and from the C06 theorems, so the difference is not exercised.
+
+(Third audit: the lazy behaviour of the real code at this excluded point is modelled exactly by `checkRouteO` in
+`VrpModel/PathBased.lean` and characterised in `Props/C06d.lean`; this file keeps the coarser statement about `checkRoute`.)
 -/
 namespace Vrp.C06
 open Vrp
